@@ -60,7 +60,7 @@ func loadPkgUncached(dir string) (*pkgInfo, error) {
 			files = append(files, p.Files[fn])
 		}
 		info := &types.Info{Types: map[ast.Expr]types.TypeAndValue{}, Defs: map[*ast.Ident]types.Object{},
-			Uses: map[*ast.Ident]types.Object{}, Selections: map[*ast.SelectorExpr]*types.Selection{}}
+			Uses: map[*ast.Ident]types.Object{}, Selections: map[*ast.SelectorExpr]*types.Selection{}, Implicits: map[ast.Node]types.Object{}}
 		conf := types.Config{Importer: gImp, Error: func(error) {}}
 		tp, _ := conf.Check(filepath.Base(dir), fset, files, info)
 		return &pkgInfo{fset, files, info, tp}, nil
